@@ -46,4 +46,11 @@ m = {
     "notes": "Every check honours VERIF_SEED and VERIF_TIER. Known findings are listed in /verif/known_findings.json. See DESIGN.md and CONVENTIONS.md.",
 }
 json.dump(m, open(os.path.join(V, "MANIFEST.json"), "w"), indent=1)
+# known findings: assembled from harness/props/*.findings.json (one snippet file per property)
+findings = []
+for fn in sorted(os.listdir(P)):
+    if fn.endswith(".findings.json"):
+        findings += json.load(open(os.path.join(P, fn)))
+json.dump({"comment": "status 'known' = genuine defect of the pinned tree recorded, not repaired: the owning check prints KNOWN-FINDING for it and exits 0, and still reports any other violation. status 'fixed' = repaired by the named fix: commit in /repo; suppresses nothing. Assembled from harness/props/*.findings.json by harness/mkmanifest.py; never written at check run time.",
+           "findings": findings}, open(os.path.join(V, "known_findings.json"), "w"), indent=1)
 print(f"MANIFEST.json: {len(checks)} checks, {len(na)} not_applicable")
